@@ -53,9 +53,9 @@ def check_fixpoint(chk, prog, model):
     chk.floor(R, n, 3, "rebuild loops in egglog_bridge (native loop and serial while-changed loop of EGraph::rebuild, rebuild_parallel)")
     if "native" not in kinds:
         chk.missing(R, "native rebuild loop over Database::apply_rebuild")
-    need = {"egglog_bridge::EGraph::rebuild"}
-    if not need <= model.rebuilders:
-        chk.bad(R, "rebuilders", f"EGraph::rebuild is no longer recognised as a rebuilder (every Ok path through a valid fixpoint loop); rebuilders found: {sorted(model.rebuilders)}")
+    native_rebuilders = [n for n in model.rebuilders if any(e["kind"] == "native" for e in model.fix.get(n, []))]
+    if not native_rebuilders:
+        chk.bad(R, "rebuilders", f"no function with a native apply_rebuild loop is recognised as a rebuilder any more (every Ok path through a valid fixpoint loop); rebuilders found: {sorted(model.rebuilders)}")
 
 
 def check_rebuild(chk, prog, model, prop_note=""):
